@@ -112,6 +112,64 @@ Theorem C14_rule_unit_exists : forall L e a u,
 Proof. exact unit_exists_spec. Qed.
 Print Assumptions C14_rule_unit_exists.
 
+(* item_exists_check and deprecation.  C14_rule_item_exists above holds for EVERY entry e -- no hypothesis
+   about e's own deprecatedFrom: a missing item is reported on a deprecated node like on any other (made
+   explicit by the instance below).  The entry's deprecatedFrom matters in one place only: "refers to a
+   deprecated item" is reported iff the item exists, IS deprecated, and the referring entry is not. *)
+Theorem C14_rule_item_missing_on_deprecated_entry : forall sec L e a s ks item,
+  (sec = SecTags \/ sec = SecUnitClasses \/ sec = SecValueClasses) ->
+  has_attr e HedKey_DeprecatedFrom = true ->
+  dict_get a (le_attrs e) = Some (VStr s) ->
+  item_exists_check sec L e a = Ok ks ->
+  In item (split_comma s) -> item <> [] -> lookup L sec item = None ->
+  In K_SCHEMA_GENERIC_ATTRIBUTE_VALUE_INVALID ks.
+Proof. exact item_missing_reported_on_deprecated_entry. Qed.
+Print Assumptions C14_rule_item_missing_on_deprecated_entry.
+
+Theorem C14_rule_item_deprecated : forall sec L e a s ks,
+  (sec = SecTags \/ sec = SecUnitClasses \/ sec = SecValueClasses) ->
+  dict_get a (le_attrs e) = Some (VStr s) ->
+  item_exists_check sec L e a = Ok ks ->
+  (In K_SCHEMA_ATTRIBUTE_VALUE_DEPRECATED ks <->
+   exists item ie, In item (split_comma s) /\ item <> [] /\ lookup L sec item = Some ie
+                   /\ has_attr ie HedKey_DeprecatedFrom = true /\ has_attr e HedKey_DeprecatedFrom = false).
+Proof. exact item_exists_deprecated_spec. Qed.
+Print Assumptions C14_rule_item_deprecated.
+
+(* WHICH ATTRIBUTES ARE UNDECLARED.  For a schema loaded from its XML, an attribute of an entry is recorded
+   as undeclared exactly when it is not among the valid attributes OF THE ENTRY'S OWN SECTION
+   ([declared_for b L sec] = HedSchema._get_attributes_for_section under the 8.3 flag b).  Whether the schema
+   declares the name for some OTHER section plays no role.  Unit modifiers and value classes are judged at
+   load time (flag p83 from the header versions) and again in finalize_entry (final flag); attribute and
+   property definitions in finalize_entry only; units and tags at load time only.  (Unit classes: same rule
+   as units in the model; not restated here.) *)
+Theorem C14_undeclared_modifiers_value_classes : forall E S L p83 sec e a,
+  load E S = Ok L -> version_ge_83 S = Ok p83 ->
+  sec = SecUnitModifiers \/ sec = SecValueClasses -> In e (section_all L sec) ->
+  (In a (le_unknown e) <->
+   In a (map fst (le_attrs e)) /\ ~ In a (declared_for p83 L sec) /\ ~ In a (declared_for (l_is83 L) L sec)).
+Proof. exact load_unknown_modifiers_value_classes. Qed.
+Print Assumptions C14_undeclared_modifiers_value_classes.
+
+Theorem C14_undeclared_definitions : forall E S L p83 sec e a,
+  load E S = Ok L -> version_ge_83 S = Ok p83 ->
+  sec = SecAttributes \/ sec = SecProperties -> In e (section_all L sec) ->
+  (In a (le_unknown e) <-> In a (map fst (le_attrs e)) /\ ~ In a (declared_for (l_is83 L) L sec)).
+Proof. exact load_unknown_definitions. Qed.
+Print Assumptions C14_undeclared_definitions.
+
+Theorem C14_undeclared_units : forall E S L p83 e a,
+  load E S = Ok L -> version_ge_83 S = Ok p83 -> In e (l_units L) ->
+  (In a (le_unknown e) <-> In a (map fst (le_attrs e)) /\ ~ In a (declared_for p83 L SecUnits)).
+Proof. exact load_unknown_units. Qed.
+Print Assumptions C14_undeclared_units.
+
+Theorem C14_undeclared_tags : forall E S L p83 e a,
+  load E S = Ok L -> version_ge_83 S = Ok p83 -> In e (l_tags L) ->
+  (In a (le_unknown e) <-> In a (map fst (le_attrs e)) /\ ~ In a (declared_for p83 L SecTags)).
+Proof. exact load_unknown_tags. Qed.
+Print Assumptions C14_undeclared_tags.
+
 (* deprecatedFrom: an unknown version fires, a known and strictly older one is silent *)
 Theorem C14_rule_deprecated_unknown : forall fx E L e a s ks,
   dict_get a (le_attrs e) = Some (VStr s) ->
